@@ -46,7 +46,7 @@ def gen(ctx, rng):
             a["p"] = 0.9
             a["dtype"] = "int16"
         else:
-            a["srange"] = [float(v) for v in np.arange(-2, 2.2, 0.4)]
+            a["srange"] = [[float(v) for v in np.arange(-2, 2.2, 0.4)], [float(v) for v in np.arange(-1.875, 2.0, 0.35)], [float(v) for v in np.linspace(-1, 3, 12)]][k % 3]
             if k % 3 == 1:
                 a["p"] = 0.8
         pcs = []
